@@ -116,3 +116,17 @@ CHECKS.update({
   'note': 'Patterns with literal ./.. segments, SCANDOTDIR or a leading globstar are not judged for the match<->rglob clause; K3, K4, K8, K16 attributed by class (also through pathlib\'s normalisation of x/. to x).',
  },
 })
+CHECKS.update({
+ 'C15': {
+  'technique': 'exhaustive enumeration of every abort point / raise point / between-results kill / harness-scheduled cross-thread kill per configuration + Hypothesis rule-based state machine over match/imatch/next/kill/reset; invariants over the recorded hook history',
+  'text': 'For 35 (tree, pattern, flags) configurations the uninterrupted run is recorded with a hook-recording subclass and every abort point k = 0..n+1 is executed (kill from hook k, kill from another thread released exactly at hook k, kill between any two results), as is a raising validation/comparison hook at every position; a state machine interleaves match / imatch / next / kill / reset / drop. Checked: prefix-exactness, at most the item in progress finishes, stickiness until reset, full result after reset, identical re-runs, on_reset once per run, skipped counter, one-to-one routing to on_match/on_skip (+on_error), hook values passed through.',
+  'design_ref': 'DESIGN.md section 3 C15',
+  'note': 'kill() in the middle of a hook body or inside os.walk is not a distinct observable event; free-running threads are not used. Exceptions are only raised from the hooks the walker guards.',
+ },
+ 'C19': {
+  'technique': 'Hypothesis rule-based state machine over a cache-colliding call pool with a per-call baseline table as reference model; fresh-interpreter differential; 8-thread stress; matcher object algebra (==, hash, pickle, copy, immutability)',
+  'text': 'Every call in every generated history (up to 80/400 steps, hot set for warm-cache hits, >256-pattern fillers for eviction, cache_clear, kept/pickled/copied matchers) must return exactly what the same call returns alone with the cache cleared; the hot set is re-evaluated in a fresh interpreter with another hash seed after a cache-filling history; the pool runs on 8 threads with a 1 microsecond switch interval; about 400 compiled matchers are checked pairwise for ==/hash vs behaviour, against rebuilt/pickled/copied twins, and for immutability.',
+  'design_ref': 'DESIGN.md section 3 C19',
+  'note': 'The threaded part is a stress run (schedule not owned by the harness). Cache hits on colliding keys and evictions are measured through cache_info() and reported.',
+ },
+})
